@@ -8,6 +8,7 @@ import (
 	"testing"
 
 	"verif/harness/ev"
+	"verif/harness/model"
 
 	"pgregory.net/rapid"
 )
@@ -19,7 +20,7 @@ import (
 //
 //   - keptEncodings: the last few encodings the library returned are kept and compared with the model
 //     again after every later encode (an encoder's result is the caller's; nothing may write to it).
-//   - codecsConcurrently: 16 goroutines, each with values of its own drawn by the ordinary generators,
+//   - codecsConcurrently: 64 goroutines, each with values of its own drawn by the ordinary generators,
 //     encode, decode and re-check in a loop, yielding in between.
 
 type keptEnc struct {
@@ -50,7 +51,7 @@ func keepEncoding(t failer, prop string, c *codec, got, want []byte, cc codecCas
 
 // codecsConcurrently runs the round trip of every codec from 16 goroutines at once.
 func codecsConcurrently(t *testing.T, prop string, iters int) {
-	const workers = 16
+	const workers = 64
 	type job struct {
 		c     *codec
 		m     interface{}
@@ -78,6 +79,30 @@ func codecsConcurrently(t *testing.T, prop string, iters int) {
 			}
 			if best != nil {
 				jobs[w] = append(jobs[w], job{c, best, append([]byte{}, bestWire...), mkCodecCase(c, best), c.name})
+			}
+			// the argument-carrying bodies once more with a long argument list of this worker's own
+			// (200 to 255 arguments of 2 to 41 octets): the longer a decode takes, the likelier an overlap
+			var m interface{}
+			args := make([]model.B, 200+(w*7)%56)
+			for k := range args {
+				a := make([]byte, 2+(k*3+w)%40)
+				for x := range a {
+					a[x] = byte('a' + (k+x+w)%26)
+				}
+				args[k] = a
+			}
+			switch c.name {
+			case "AuthorRequest":
+				m = model.AuthorRequest{Method: 6, Priv: 1, AType: 1, Service: 1, User: model.B("u"), Port: model.B("p"), RemAddr: model.B("r"), Args: args}
+			case "AuthorReply":
+				m = model.AuthorReply{Status: 1, ServerMsg: model.B("m"), Data: model.B("d"), Args: args}
+			case "AcctRequest":
+				m = model.AcctRequest{Flags: 2, Method: 6, Priv: 1, AType: 1, Service: 1, User: model.B("u"), Port: model.B("p"), RemAddr: model.B("r"), Args: args}
+			}
+			if m != nil {
+				if wire, err := c.toLib(m).MarshalBinary(); err == nil && bytes.Equal(wire, c.encode(m)) {
+					jobs[w] = append(jobs[w], job{c, m, wire, mkCodecCase(c, m), c.name})
+				}
 			}
 		}
 	}
@@ -136,7 +161,7 @@ func codecsConcurrently(t *testing.T, prop string, iters int) {
 	}
 	wg.Wait()
 	ev.Eval()
-	ev.Class("codecs-from-16-goroutines-at-once")
+	ev.Class("codecs-from-64-goroutines-at-once")
 	if failure != nil {
 		violation(t, prop, failure.j.c.name, prop+":"+failure.j.c.name+":"+failure.sig, failure.j.cc, "%s", failure.msg)
 	}
@@ -148,5 +173,5 @@ func codecsConcurrently(t *testing.T, prop string, iters int) {
 	}
 }
 
-func TestC01EnumConcurrent(t *testing.T) { codecsConcurrently(t, "C01", 100) }
-func TestC02EnumConcurrent(t *testing.T) { codecsConcurrently(t, "C02", 100) }
+func TestC01EnumConcurrent(t *testing.T) { codecsConcurrently(t, "C01", 40) }
+func TestC02EnumConcurrent(t *testing.T) { codecsConcurrently(t, "C02", 40) }
